@@ -41,7 +41,7 @@ theorem filterMap_none {α β : Type} (l : List α) :
     (l.filterMap fun _ => (none : Option β)) = [] := by
   induction l with
   | nil => rfl
-  | cons x xs ih => simpa using ih
+  | cons x xs ih => simp [ih]
 
 theorem nodup_map_on {α β : Type} (f : α → β) (l : List α)
     (inj : ∀ a ∈ l, ∀ b ∈ l, f a = f b → a = b) (nd : l.Nodup) : (l.map f).Nodup := by
